@@ -7,7 +7,7 @@ TL = "Tracked(l): Tracked<&mut L>"
 
 accept = Fn(F, ["impl OsIpcOneShotServer", "accept"], ret="r", extra_params=TL,
     requires=[Clause("unix.accept/requires.ledger_wf", "old(l).owned.subset_of(old(l).open)"),
-              Clause("unix.accept/requires.server_is_listening", "old(l).listening.contains(self.fd)")],
+              Clause("unix.accept/requires.server_is_listening", "old(l).listening.contains(self.fd) && old(l).owned.contains(self.fd) && old(l).open.contains(self.fd)")],
     ensures=[
         Clause("unix.accept/ensures.receiver_is_one_connection_taken_from_this_servers_queue",
                "r matches Ok((rx, _, _, _)) ==> final(l).conn_of.contains_key(cell_val(&rx.fd)) && final(l).conn_of[cell_val(&rx.fd)] == self.fd\n"
@@ -31,6 +31,7 @@ accept = Fn(F, ["impl OsIpcOneShotServer", "accept"], ret="r", extra_params=TL,
         AppendArg("B41", r"OsIpcReceiver::from_fd\(", LG, "ownership hand-over recorded in the ledger", min_count=1),
         AppendArg("B47", r"\brecv\(", LG, "whole-message receive (unit U3) as a stub that logs the descriptor read and what came back", min_count=1),
         AppendArg("B48", r"make_socket_lingering\(", LG, "setsockopt(SO_LINGER) stub"),
+        AppendArg("B45", r"libc::close\(", LG, "close stub over the ledger (only raw, un-owned descriptors may be closed by hand)", rename="k_close"),
     ],
     safety_props=["C11", "C18"])
 
@@ -99,9 +100,9 @@ UNIT = Unit(
     groups=[("impl OsIpcOneShotServer", [server_new, accept]), ("impl OsIpcSender", [connect]), ("impl OsIpcOneShotServer", [server_drop])],
     props=["C11", "C08"],
     prelude_clauses={
-        "unix.accept/requires.accepted_descriptor_is_close_on_exec": ["C11"],
-        "unix.server_new/requires.socket_is_close_on_exec": ["C11"],
-        "unix.server/requires.close_only_raw_open_descriptors": ["C11"],
+        "unix.accept/requires.accepted_descriptor_is_close_on_exec": ["C11", "C08"],
+        "unix.server_new/requires.socket_is_close_on_exec": ["C11", "C08"],
+        "unix.server/requires.close_only_raw_open_descriptors": ["C11", "C08"],
         "unix.server_drop/requires.closes_only_its_own_open_descriptor": ["C08", "C11"],
         "unix.accept/requires.accepts_on_a_listening_socket": ["C08"],
         "unix.accept/requires.first_message_awaited_blocking": ["C08"],
